@@ -560,6 +560,15 @@ RunFrom(cfg, orc, argv, disp, st) ==
 
 Run(cfg, orc, argv, disp) == RunFrom(cfg, orc, argv, disp, InitState(cfg, orc, argv))
 
+(* The same run, also answering which actions it took (used by trace        *)
+(* validation to report which actions of the specification the recorded    *)
+(* executions exercised).                                                  *)
+RECURSIVE RunFromA(_, _, _, _, _, _)
+RunFromA(cfg, orc, argv, disp, st, acts) ==
+  IF Final(st, disp) \/ st.phase = "stuck" THEN [fin |-> st, acts |-> acts]
+  ELSE LET nx == Step(cfg, orc, argv, disp, st) IN RunFromA(cfg, orc, argv, disp, nx, acts \cup {nx.act})
+RunA(cfg, orc, argv, disp) == RunFromA(cfg, orc, argv, disp, InitState(cfg, orc, argv), {})
+
 (* Termination variant: decreases lexicographically on every step.         *)
 PhaseRank(p) == CASE p = "scan" -> 5 [] p = "pair" -> 4 [] p = "intake" -> 3
                   [] p = "post" -> 2 [] p = "parsed" -> 1 [] OTHER -> 0
